@@ -614,4 +614,118 @@ theorem findLinkImage_eq_noBottoms (s : Str) (offset : Nat) (ds : List Delim) (m
       rw [hpe]
       rfl
 
+/-- the continuation that just returns its arguments -/
+def retK (i : Nat) (st : FState) : Res (Nat × FState) := .ok (i, st)
+
+/-- the loop body calls its continuation at most once, as the last thing it does -/
+theorem tailExpr_nat {α} (K : Nat → FState → Res α) (s : Str) (fn : Footnotes.Table) (i : Nat) (c : Char) (st2 : FState) :
+    tailExpr K s fn i c st2 =
+      match tailExpr retK s fn i c st2 with
+      | .err e => .err e
+      | .ok (i', st') => K i' st' := by
+  unfold tailExpr
+  cases st2.escaped
+  · simp only [Bool.not_false, if_true]
+    by_cases h1 : c = '['
+    · simp only [h1, if_true]
+      cases st2.inImage <;> rfl
+    · simp only [h1, if_false]
+      by_cases h2 : c = '!'
+      · simp only [h2, if_true]; rfl
+      · simp only [h2, if_false]
+        by_cases h3 : c = ']'
+        · simp only [h3, if_true]
+          cases findLinkImage s i st2.ds st2.ms fn with
+          | err e => rfl
+          | ok r => rfl
+        · simp only [h3, if_false]
+          cases st2.inImage <;> rfl
+  · rfl
+
+theorem restExpr_nat {α} (K : Nat → FState → Res α) (s : Str) (fn : Footnotes.Table) (i : Nat) (c : Char) (st : FState) :
+    restExpr K s fn i c st =
+      match restExpr retK s fn i c st with
+      | .err e => .err e
+      | .ok (i', st') => K i' st' := by
+  unfold restExpr
+  split
+  · rfl
+  · exact tailExpr_nat K s fn i c _
+
+theorem tailExprNB_eq {α} (K : Nat → FState → Res α) (s : Str) (fn : Footnotes.Table) (i : Nat) (c : Char) (st2 : FState)
+    (h : Mid s (GInv s) (RunOf s) (Harmless s) TightAt i c st2) (hi : i < s.length) :
+    tailExprNB K s fn i c st2 = tailExpr K s fn i c st2 := by
+  unfold tailExprNB tailExpr
+  by_cases h3 : c = ']'
+  · cases hr : st2.inRun with
+    | some ch =>
+      obtain ⟨hch, hcc, _⟩ := h.run ch hr
+      rw [h3] at hcc
+      rcases hch with h' | h' <;> rw [h'] at hcc <;> cases hcc
+    | none =>
+      have hG := h.norun hr
+      rw [findLinkImage_eq_noBottoms s i st2.ds st2.ms fn _ hG (by split <;> omega)]
+      rfl
+  · simp only [h3, if_false]
+
+theorem restExprNB_eq {α} (K : Nat → FState → Res α) (s : Str) (fn : Footnotes.Table) (i : Nat) (c : Char) (st : FState)
+    (h : FInv s (GInv s) (RunOf s) (Harmless s) TightAt i st) (hc : s[i]? = some c) :
+    restExprNB K s fn i c st = restExpr K s fn i c st := by
+  unfold restExprNB restExpr
+  split
+  · rfl
+  · exact tailExprNB_eq K s fn i c _ (mid_of_inv (loopInv_ginv s fn) i c st h hc) (List.getElem?_eq_some_iff.1 hc).1
+
+/-- the character loop is the same with and without bottoms -/
+theorem coreLoop_eq_noBottoms (s : Str) (fn : Footnotes.Table) : ∀ (fuel i : Nat) (st : FState),
+    FInv s (GInv s) (RunOf s) (Harmless s) TightAt i st → coreLoop s fn fuel i st = coreLoopNB s fn fuel i st
+  | 0, _, _, _ => rfl
+  | fuel + 1, i, st, h => by
+    rw [coreLoop_succ, coreLoopNB]
+    cases hc : s[i]? with
+    | none => rfl
+    | some c =>
+      simp only
+      have hrest : restExpr (coreLoop s fn fuel) s fn i c st = restExprNB (coreLoopNB s fn fuel) s fn i c st := by
+        rw [restExprNB_eq _ s fn i c st h hc]
+        obtain ⟨i', st3, he, _, _, hinv⟩ := rest_spec (loopInv_ginv s fn) retK i c st h hc
+        rw [restExpr_nat (coreLoop s fn fuel), restExpr_nat (coreLoopNB s fn fuel), he]
+        exact coreLoop_eq_noBottoms s fn fuel (i' + 1) st3 hinv
+      cases hcm : st.code with
+      | none => simpa using hrest
+      | some cm =>
+        simp only
+        by_cases hcs : i = cm.start
+        · rw [if_pos (by simp [hcs]), if_pos (by simp [hcs])]
+          obtain ⟨st3, he, _, hinv⟩ := code_spec (loopInv_ginv s fn) retK i st cm h hcm hcs
+          have e1 : ∀ K : Nat → FState → Res (Nat × FState), codeExpr K s i st cm =
+              match codeExpr retK s i st cm with
+              | .err e => .err e
+              | .ok (i', st') => K i' st' := fun K => rfl
+          rw [e1 (coreLoop s fn fuel), e1 (coreLoopNB s fn fuel), he]
+          exact coreLoop_eq_noBottoms s fn fuel cm.stop st3 hinv
+        · rw [if_neg (by simp [hcs]), if_neg (by simp [hcs])]
+          exact hrest
+
+/-- **`find_core_tokens` does not depend on the bottoms of `process_emphasis`**: for every text and
+    every table of definitions it returns exactly what it returns when every `process_emphasis`
+    call searches openers down to the stack bottom. -/
+theorem findCoreTokens_eq_noBottoms (s : Str) (fn : Footnotes.Table) :
+    findCoreTokens s fn = findCoreTokensNB s fn := by
+  have h0 : GInv s 0 [] [] :=
+    ⟨⟨⟨Nat.le_refl _, fun m hm => (by cases hm), List.Pairwise.nil⟩, fun d hd => (by cases hd),
+      fun m hm => (by cases hm)⟩, List.Pairwise.nil, fun m hm => (by cases hm)⟩
+  have hinit : FInv s (GInv s) (RunOf s) (Harmless s) TightAt 0 { code := codeSearch s 0 } :=
+    finv_norun 0 _ (Nat.zero_le _) rfl h0 (fun c x hx => by cases hx)
+      (fun cm h => codeSearch_spec s 0 cm h) (fun h => by cases h)
+  obtain ⟨st, ds, h1, hds, h2⟩ := findCoreTokens_loop (loopInv_ginv s fn) h0 (fun c x hx => by cases hx)
+  have h1' := h1
+  rw [coreLoop_eq_noBottoms s fn _ 0 _ hinit] at h1'
+  unfold findCoreTokens findCoreTokensNB
+  rw [h1, h1']
+  simp only
+  rw [← hds, processEmphasis_eq_noBottoms s none 0 s.length (Nat.le_refl _) ds _ h2.cinv.dinv.chain
+    (fun x d hx => by cases hx)]
+  rfl
+
 end Mistletoe.Core
